@@ -254,8 +254,11 @@ def run_property(prop, tier, seed, replay=None):
 
     if not violations:
         # disagreements not explained by an oracle failure (or by a known finding)
+        # (every oracle failure left at this point matched a known finding; the model follows the code, so a
+        # known finding explains no disagreement — cases without any oracle failure are looked at first)
         failing_ids = {c.cid for c, _ in failures}
-        pure = [(c, d) for c, d in disagreements if c.cid not in failing_ids]
+        pure = ([(c, d) for c, d in disagreements if c.cid not in failing_ids] +
+                [(c, d) for c, d in disagreements if c.cid in failing_ids])
         dsigs = set()
         for c, d in pure[:200]:
             pre = prop.signature(c, {"kind": "disagreement"})
